@@ -15,6 +15,7 @@ def rho_for(base, k):
     return r
 
 class C16(Prop):
+    layouts = True
     translators = ['elicitor', 'bsearch']   # Elicitor.__init__ / Elicitor.elicit and the binary_search functions regenerated from the source on every run
     pid = "C16"
     sources = ["socialchoicekit/elicitation_voting.py", "socialchoicekit/elicitation_allocation.py", "socialchoicekit/distortion.py", "socialchoicekit/deterministic_allocation.py"]
@@ -32,6 +33,8 @@ class C16(Prop):
 
     def cases(self, rng, tier):
         for c in self.gap_cases(rng, tier):
+            yield c
+        for c in self.two_digit_cases(rng, tier):
             yield c
         N = 300 if tier == "quick" else 6000
         for i in range(N):
@@ -69,6 +72,30 @@ class C16(Prop):
                 V = [[float(1 if r <= 2 else 0) for r in row] for row in P]; kind = "approval_int"; ec = "profile_int"
             yield dict(entry={"KARV": "KARV.scf", "TSF": "LambdaTSF.scf"}[rule], family=rule.lower() + "_" + kind, rule=rule, P=P, V=V, k=k,
                        tb=["accept", "first", "random"][i % 3], zi=True, want_out=True, seed=i, eclass=ec, ezi=True)
+
+    def two_digit_cases(self, rng, tier):
+        # agent and alternative indices that cross from one to two decimal digits (12-14 agents, 11-13 alternatives), with the classical worst case
+        # for distortion: one agent s holds almost all the welfare on an alternative x nobody else ranks high; another agent d's favourite is 10 + x.
+        # Anything that identifies the question (s, x) by a concatenated or fixed-width key confuses it with (d, 10 + x).
+        combos = [(m, s, d, x) for m in (11, 12, 13) for s in (10, 11) for d in (0, 1) for x in range(m - 10)]
+        if tier == "quick": combos = combos[::2] + combos[1::4]
+        for i, (m, s, d, x) in enumerate(combos):
+            n = rng.randint(12, 14); k = 1 + i % 2
+            rule = "KARV"       # (the allocation oracle enumerates assignments: n <= 7 only)
+            P, V = [], []
+            others = [j for j in range(m) if j not in (x, 10 + x)]
+            for a in range(n):
+                fav = x if a == s else (10 + x) if a == d else (others[a % len(others)] if rule == "TSF" else others[0])
+                rest = [j for j in range(m) if j != fav]; rng.shuffle(rest)
+                if a != s and x in rest:      # nobody else ranks x high
+                    rest.remove(x); rest.append(x)
+                order = [fav] + rest
+                rk = [0] * m; vv = [0.0] * m
+                for pos, j in enumerate(order):
+                    rk[j] = pos + 1; vv[j] = (1000.0 if a == s else 1.0) if pos == 0 else 1e-4 * (m - pos) / m
+                P.append(rk); V.append(vv)
+            yield dict(entry={"KARV": "KARV.scf", "TSF": "LambdaTSF.scf"}[rule], family=rule.lower() + "_two_digit_spike", rule=rule, P=P, V=V, k=k, tb="accept", zi=True,
+                       want_out=True, seed=i, eclass=["lambda", "profile"][i % 2], ezi=True)
 
     def gap_cases(self, rng, tier):
         # every agent has its own favourite (value 1) and all share a second choice valued just BELOW some threshold level l* and above
